@@ -58,6 +58,16 @@ type Case struct {
 	Prefix string   `json:"prefix,omitempty"`
 	NameQ  string   `json:"name_q,omitempty"`
 	UserNS bool     `json:"user_ns_explicit,omitempty"`
+	Init   string   `json:"init,omitempty"`
+	Hist   []string `json:"history,omitempty"`
+}
+
+func serverSync(remote models.Client, local *models.LocalClient, key string) (map[string]*models.Namespace, error) {
+	return server.SyncNamespaces(remote, local, key)
+}
+
+func serverLoadLocal(local *models.LocalClient, key string) (map[string]*models.Namespace, error) {
+	return server.LoadDecryptNamespaces(local, key)
 }
 
 func q(s string) string { return strconv.Quote(s) }
@@ -1159,6 +1169,8 @@ func (x *ctx) run(c Case) {
 		x.runDec(c)
 	case "local":
 		x.runLocal(c)
+	case "hist":
+		x.runHist(c)
 	default:
 		ev.Fatalf("unknown part %q", c.Part)
 	}
@@ -1308,18 +1320,19 @@ func main() {
 		finish()
 	}
 
-	r.Set("rule", "enum: cred = all vectors of credential fields (user name, password, slice user, slice password; 1 user+1 slice and 2 users+2 slices) that differ from a valid default in <=k positions over a boundary-rich byte-string alphabet (every length 0..33, blanks, NUL, 0xff, UTF-8, padding look-alikes) x every valid AES key length, plus invalid key lengths; dec = every ciphertext length 0..48, every final padding byte 0..255 on 1..3 valid blocks, malformed base64, valid and invalid keys; name/local = adversarial namespace names x prefixes x entry points (raw Client API, Store API, SyncNamespaces) in a sandbox with sentinel files. distinct_nontrivial counts distinct stored ciphertext blobs that were reloaded equal, distinct decrypt outcomes (error class / output length), distinct in-storage paths returned by the helpers and distinct names that completed a local write/read round trip")
+	r.Set("rule", "enum: cred = all vectors of credential fields (user name, password, slice user, slice password; 1 user+1 slice and 2 users+2 slices) that differ from a valid default in <=k positions over a boundary-rich byte-string alphabet (every length 0..33, blanks, NUL, 0xff, UTF-8, padding look-alikes) x every valid AES key length, plus invalid key lengths; dec = every ciphertext length 0..48, every final padding byte 0..255 on 1..3 valid blocks, malformed base64, valid and invalid keys; hist = every enabled operation history of depth <=d over {save fresh cfg (is_encrypt unset / set), load, re-save the loaded object, modify the loaded object and save, JSON round trip of the loaded object then save, cc rollback path (real rollbackNamespace), delete} from 5 initial states (empty, saved, saved+loaded, legacy plaintext entry, legacy+loaded), oracle after every step; name/local = adversarial namespace names x prefixes x entry points (raw Client API, Store API, SyncNamespaces) in a sandbox with sentinel files. distinct_nontrivial counts distinct stored ciphertext blobs that were reloaded equal, distinct decrypt outcomes (error class / output length), distinct in-storage paths returned by the helpers and distinct names that completed a local write/read round trip and distinct (initial state, history) pairs that completed with the oracle holding after every step")
 	r.Assume("the in-memory coordinator ref/fakeetcd reproduces the etcd v2 semantics that models/etcd relies on (file/dir keys, recursive ListWithValues, Read of missing key = nil)")
 	r.Assume("documented normalisation = strings.TrimSpace of user name/password/user namespace, default user namespace, nil allowed_session_variables -> {}, is_encrypt = true")
 	r.Assume("reads of sentinel files are detected through returned data (a unique marker), writes/deletes through a before/after snapshot of the sandbox tree; file operations whose helper path would leave the sandbox are reported from the helper result and not executed")
 	r.Assume("LocalClient.UpdateWithTTL is not driven (free-running timer goroutine); it uses the same path helper as Update")
-	r.Set("bounds", fmt.Sprintf("cred deviations: 1 user+1 slice <=%d, 2 users+2 slices <=%d, over %d strings x %d valid keys (quick: 2-deviation vectors over the core sub-alphabet under the first key; thorough: 3-deviation vectors under the first key) (+%d invalid); %d names x %d prefixes x 3 entry points; ciphertext lengths 0..48, padding bytes 0..255 on 1..3 blocks",
-		r.Pick(2, 3), r.Pick(1, 2), len(credAlphabet()), len(validKeys), len(invalidKeys), len(nameAlphabet()), len(prefixes)))
+	r.Set("bounds", fmt.Sprintf("cred deviations: 1 user+1 slice <=%d, 2 users+2 slices <=%d, over %d strings x %d valid keys (quick: 2-deviation vectors over the core sub-alphabet under the first key; thorough: 3-deviation vectors under the first key) (+%d invalid); %d names x %d prefixes x 3 entry points; ciphertext lengths 0..48, padding bytes 0..255 on 1..3 blocks; operation histories of depth <=%d over 8 operations from 5 initial states",
+		r.Pick(2, 3), r.Pick(1, 2), len(credAlphabet()), len(validKeys), len(invalidKeys), len(nameAlphabet()), len(prefixes), r.Pick(4, 6)))
 
 	parts := []struct {
 		name string
 		gen  func(emit func(Case))
-	}{{"local", genLocal}, {"name", genName}, {"dec", genDec}, {"cred", func(e func(Case)) { genCred(r, e) }}}
+	}{{"local", genLocal}, {"name", genName}, {"dec", genDec},
+		{"hist", func(e func(Case)) { genHist(r, e) }}, {"cred", func(e func(Case)) { genCred(r, e) }}}
 	for _, p := range parts {
 		t0 := time.Now()
 		defer func(n string) {}(p.name)
